@@ -59,7 +59,7 @@ def find_indexes_of_unique_points(points, compare_points, scaling_vector, tolera
   if compare_points is None:
     # NOTE: tril excludes indexes later in points, preferring points found earlier in CL
     distance_matrix = cdist(points, points, "seuclidean", V=numpy.array(scaling_vector, dtype=float))
-    distance_matrix += numpy.tril(numpy.full_like(distance_matrix, tolerance + 1))
+    distance_matrix += numpy.tril(numpy.full_like(distance_matrix, numpy.inf))
   else:
     distance_matrix = cdist(compare_points, points, "seuclidean", V=numpy.array(scaling_vector, dtype=float))
   unique_indexes = numpy.all(distance_matrix > tolerance * numpy.sqrt(n_dim), axis=0)
